@@ -431,4 +431,4 @@ Example C03_example_full_hierarchies :
                  /\ dump_ok 1 true true None (show_hier ls) = false
   | _ => False
   end.
-Proof. vm_compute. auto. Qed.
+Proof. vm_compute. repeat split; reflexivity. Qed.
